@@ -418,6 +418,14 @@ func TestSeveralPacingRules(t *testing.T) {
 			needs = append(needs, need(1, T, 0))
 			c.Op("pacing rule %d: %v/s", i, T)
 		}
+		twins := rapid.IntRange(0, 3).Draw(t, "twins") == 0
+		if twins { // the same pacing rule listed twice (equal values, distinct objects and IDs): the two pace in lockstep
+			T := rs[0].Threshold
+			rs = []*flow.Rule{rs[0], {ID: "twin", Resource: "t", TokenCalculateStrategy: flow.Direct, ControlBehavior: flow.Throttling, Threshold: T, MaxQueueingTimeMs: 3600000}}
+			needs = []int64{need(1, T, 0)}
+			nr = 2
+			c.Class("twin-pacing-rules")
+		}
 		if rapid.IntRange(0, 3).Draw(t, "rejectRuleToo") == 0 { // an inert reject rule somewhere in the list
 			k := rapid.IntRange(0, len(rs)).Draw(t, "at")
 			rs = append(rs[:k:k], append([]*flow.Rule{{ID: "inert", Resource: "t", Threshold: 1e9}}, rs[k:]...)...)
@@ -433,10 +441,24 @@ func TestSeveralPacingRules(t *testing.T) {
 		}
 		lastPass := int64(-1)
 		waited := false
+		reloadN := 0
 		n := rapid.IntRange(2, 12).Draw(t, "n")
 		for i := 0; i < n; i++ {
 			if rapid.IntRange(0, 2).Draw(t, "gap") == 0 {
 				hx.C.AddNs(int64(rapid.IntRange(1, 300).Draw(t, "ms")) * 1e6)
+			}
+			if rapid.IntRange(0, 4).Draw(t, "reload") == 0 { // every rule of the resource unchanged (fresh equal objects), a rule elsewhere changes
+				reloadN++
+				var cp []*flow.Rule
+				for _, r := range rs {
+					x := *r
+					cp = append(cp, &x)
+				}
+				cp = append(cp, &flow.Rule{Resource: "elsewhere", Threshold: float64(reloadN)})
+				if _, err := flow.LoadRules(cp); err != nil || len(flow.GetRulesOfResource("t")) != len(rs) {
+					t.Fatalf("reload: %v", err)
+				}
+				c.Op("reload #%d (rules of the resource unchanged)", reloadN)
 			}
 			arrive := hx.C.Ns()
 			hx.C.TakeSlept()
@@ -453,6 +475,15 @@ func TestSeveralPacingRules(t *testing.T) {
 			c.Op("arrive %d wait %dns pass %d", arrive, wait, pass)
 			if pass != int64(arrive)+wait {
 				t.Fatalf("the clock after the entry (%d) is not arrival + waits (%d + %d)", pass, arrive, wait)
+			}
+			if twins { // exact: one spacing, never two (both rules reserve the same slot)
+				want := int64(0)
+				if lastPass >= 0 && lastPass+strict > int64(arrive) {
+					want = lastPass + strict - int64(arrive)
+				}
+				if wait != want {
+					t.Fatalf("twin pacing rules (%dns spacing): request %d arriving at %d after a pass at %d was asked to wait %dns, the spacing requires exactly %dns", strict, i, arrive, lastPass, wait, want)
+				}
 			}
 			if lastPass >= 0 && pass-lastPass < strict {
 				t.Fatalf("request %d passes at %dns, only %dns after the previous admitted request; the strictest of the %d pacing rules on the resource demands %dns between admitted requests (rule spacings %v)", i, pass, pass-lastPass, nr, strict, needs)
